@@ -6,6 +6,9 @@ HOOKS = {
     "add_only": True,
 }
 ENGINES = [
+    {"name": "tlc-lalr", "path": "spec/LALR.tla, spec/EbnfDocGrammar.tla, spec/EbnfDocTable.tla, spec/TableIso.tla, spec/LRxRD.tla, spec/ParseTrace.tla, spec/SyntaxErr.tla, spec/FrontEnd.tla",
+     "serves_properties": ["C04", "C18", "C20"], "kind_free_text": "LALR(1) construction in TLA+ (DeRemer-Pennello, precedence resolution), table isomorphism, LR x RD product, parse-trace validation with value stack and tree rebuilding, first-error reference"},
+    {"name": "tlc-ast", "path": "spec/AstCheck.tla", "serves_properties": ["C11"], "kind_free_text": "generic/typed tree checks against the abstract specification"},
     {"name": "tlc-spec-wellformed", "path": "spec/SpecPoolGen.tla, spec/SpecCheck.tla", "serves_properties": ["C07"], "kind_free_text": "defect-seeded spec generator + TLA+ well-formedness model evaluated by TLC against recorded outcomes (harness/ebnf.go)"},
     {"name": "tlc-precedence", "path": "spec/PrecGen.tla, spec/PrecCheck.tla", "serves_properties": ["C12"], "kind_free_text": "directive-list generator + level comparison in TLC"},
     {"name": "tlc-grammar-eq", "path": "spec/Ebnf.tla, spec/EbnfGen.tla, spec/GrammarEq.tla", "serves_properties": ["C01"],
@@ -24,6 +27,34 @@ NOTES = ("Every check: TLC-generated cases -> Go harness runs the real emerge co
          "counterexamples replayed on the real code before a VIOLATION line is printed. Exit 2 = infrastructure, never a verdict.")
 NOT_APPLICABLE = {}
 CHECKS = {
+    "C04": {
+        "level": "model_checking",
+        "engine": "tlc-lalr",
+        "technique": "TLC builds the LALR(1) table of the documented EBNF grammar (DeRemer-Pennello + documented precedence resolution) and explores (a) the pair graph with the probed embedded ACTION/GOTO, (b) the product of the LR driver on the embedded tables with a recursive-descent recogniser over all token sequences, (c) validates real parse traces and rebuilds their trees",
+        "text": "Tables: every (state, terminal) and (state, non-terminal) of states 0..255 is probed on the real ACTION/GOTO (and case labels are read from the source); TLC pairs the states with the item sets of the table it builds from the documented grammar and precedence list and compares every cell, the driver checks the pairing is one-to-one with no extra rows. Language/disambiguation: the LR driver on the embedded tables in lock-step with an RD recogniser written from the documentation over ALL token sequences up to 12 (14) tokens - same acceptance and same error token; and the reductions recorded from the real parser on ~1000 generated specifications are validated as the documented LALR parse and rebuilt into a tree that must equal the tree that was written (juxtaposition over |, | to the right). Regeneration: the generator is run and compared byte for byte.",
+        "note": "Trusted: transcription of the grammar/precedence list (EbnfDocGrammar.tla), the RD recogniser, TLC. The byte comparison is an observation step, not decided by the specification.",
+    },
+    "C11": {
+        "level": "model_checking",
+        "engine": "tlc-ast",
+        "technique": "TLC checks the generic parse tree and the typed tree exported from the real code against the abstract specification (leaves/positions, documented productions, normal form, bounded language of the typed tree vs derived grammar); round trip observed with the real Equal",
+        "text": "For ~1500 generated specifications (all printable rhs trees to size 4/5, sharing families, recursion, empty rules, no declarations at all, every declaration kind in several orders): the leaves of ParseAndBuildAST's tree are exactly the printed tokens with positions and every node applies a documented production; ast.Parse's tree equals Norm(abstract spec); printing it and parsing again gives the same structure and the real Equal agrees; the bounded language (K=4) of every rule of the typed tree equals that of the productions spec.Parse derives.",
+        "note": "The typed tree has no printer of its own: the harness printer is used for the round trip (trusted). Name-collision specs are left to C01.",
+    },
+    "C18": {
+        "level": "model_checking",
+        "engine": "tlc-lalr",
+        "technique": "TLC trace validation of recorded callback streams (token/production/evaluation callbacks, with injected failures) against the shift-reduce driver on the TLC-built LALR(1) table of the documented grammar, with a value stack",
+        "text": "Every generated specification is parsed by the real Parse and ParseAndEvaluate with recording callbacks; each event must be the enabled step of the documented derivation: token callbacks once per source token in order with exact lexeme/position, production callbacks in reverse rightmost derivation order, evaluation callbacks with exactly the body values left to right and head value/position as specified; for a subset a failure is injected at EVERY callback index: the trace must stop exactly there and the returned error must wrap the injected one.",
+        "note": "Expected derivation comes from the TLC-built table, independent of the embedded switch; token list from the harness printer.",
+    },
+    "C20": {
+        "level": "model_checking",
+        "engine": "tlc-lalr",
+        "technique": "TLC computes the first offending token with the LR driver on the documented LALR(1) table (and, for texts, the reference scanner feeding it) and compares with the position in the real diagnostics",
+        "text": "Every single-token insertion, replacement (all 22 kinds), deletion and truncation at every position of ~40 (150) valid specifications: parser.Parse, ast.Parse and spec.Parse must reject exactly when the documented grammar does, naming file:line:column of the first token with no valid continuation, and for a premature end no token of the text. Every stray/unterminated lexical element (18 kinds) inserted at every token boundary, with and without separating blanks: spec.Parse's diagnostic must carry the position the documented front end (reference scanner + LR driver) gives.",
+        "note": "Known finding TOKEN1 applies (one-letter TOKEN). Replay of a single case is not wired; the replay file holds the text.",
+    },
     "C07": {
         "level": "model_checking",
         "engine": "tlc-spec-wellformed",
